@@ -109,7 +109,8 @@ fn main() {
     let prop = prop.unwrap_or_else(|| usage());
     let mk = |p: &'static str| Ctx { prop: p, tier, seed, start: Instant::now() };
     cap_memory(40);
-    let code = match prop.as_str() {
+    set_current_prop(&prop);
+    let code = std::panic::catch_unwind(std::panic::AssertUnwindSafe(|| match prop.as_str() {
         "C01" => props::c01::run(&mk("C01")),
         "C02" => props::c02::run(&mk("C02")),
         "C03" => props::c03::run(&mk("C03")),
@@ -134,6 +135,7 @@ fn main() {
             eprintln!("unknown property {}", prop);
             2
         }
-    };
+    }))
+    .unwrap_or_else(|_| uncaught_panic());
     std::process::exit(code);
 }
